@@ -13,14 +13,14 @@ from mc.world import World1, num_in, num_out, stored_counters, journal_rows
 POOL = [("SRV", "CLI"), ("ACC", "INI"), ("S1", "T1"), ("EXCH", "FIRM")]
 CFG = {"S": "SRV", "T": "CLI"}
 
-SLOTS_Q = ("app", "dec", "hb", "hole")
-SLOTS_T = ("app", "dec", "hb", "hole", "grp", "tr")
+SLOTS_Q = ("app", "dec", "hb", "hole", "failed")
+SLOTS_T = ("app", "dec", "hb", "hole", "failed", "grp", "tr")
 
 
 def _mk(kind, uid):
     from asyncfix import FIXMessage, FMsg, FTag
 
-    if kind in ("app", "hole"):
+    if kind in ("app", "hole", "failed"):
         return FIXMessage("D", {11: f"ord{uid}", 55: "X", 58: "a=b"})
     if kind == "dec":
         return FIXMessage("D", {11: f"dec{uid}", 55: "X"})
@@ -55,13 +55,29 @@ def run_case(case):
             uid += 1
             w.advance(1.0)
             n_before = num_out(c)
-            if k == "hole":
+            if k == "failed":
+                # a send whose transport write fails: the number is consumed; whether the message counts as
+                # sent-and-journaled is decided by the journal (ground truth for "journaled application message")
                 w.writer.fail()
                 r = w.send(_mk(k, uid))
                 w.writer.broken = None
-                truth[n_before] = {"kind": "hole"}
                 if num_out(c) != n_before + 1:
-                    return None  # the send did not consume a number: not a hole, skip shape
+                    return None  # the send did not consume a number: skip shape
+                row = {seq: m for (_, d, seq, m) in journal_rows(w.j) if d == 1}.get(n_before)
+                if row is None:
+                    truth[n_before] = {"kind": "hole"}
+                else:
+                    f, err = refs.try_parse(row)
+                    if f is None:
+                        return None
+                    truth[n_before] = {"kind": "app", "bytes": row, "f": f, "d": refs.fdict(f)}
+            elif k == "hole":
+                # a message that was sent but is missing from the journal (lost / pruned row)
+                w.send(_mk(k, uid))
+                note_written("app")
+                w.j.conn.execute("DELETE FROM message WHERE seqNo = ? AND direction = 1", (n_before,))
+                w.j.conn.commit()
+                truth[n_before] = {"kind": "hole"}
             elif k == "tr":
                 w.call(c.send_test_req())
                 note_written("session")
